@@ -22,4 +22,5 @@ def run(F, tier):
     numdate.strftime_census(rep, F)
     rep.sample({"pivot_in_parse_date_yymmdd": r.get("pivot")})
     accept.u6(rep, F, "date")
+    accept.u7(rep, F, "date")
     return rep
